@@ -676,7 +676,7 @@ pub fn def() -> PropDef {
         assumptions: &["DataFusion's evaluator is the trusted reference", "now()-relative bounds are only generated when the wall clock is 3-45 s into a minute, so the two evaluations of now() cannot straddle a row"],
         subs: || {
             vec![
-                Box::new(Sub::<Case> { name: "differential", cases: |t| t.scale(3_000, 10), strategy, exec }),
+                Box::new(Sub::<Case> { name: "differential", cases: |t| t.scale(5_000, 8), strategy, exec }),
                 Box::new(Sub::<AgedCase> {
                     name: "aged-process",
                     cases: |t| t.pick(32, 160),
